@@ -8,7 +8,8 @@ EXTENDS EQLSyntax, Json
 CONSTANTS MaxNodes, NConds, NV
 
 Nil == [k |-> "nil"]
-Node(tag, cond, ref, alt) == [k |-> "node", tag |-> tag, cond |-> cond, ref |-> ref, alt |-> alt]
+\* alts: the alternatives written in this node's block, in order (each may have alternatives in its own block)
+Node(tag, cond, ref, alts) == [k |-> "node", tag |-> tag, cond |-> cond, ref |-> ref, alts |-> alts]
 
 \* branch conditions over the base's variables
 Conds ==
@@ -26,15 +27,14 @@ vars == <<open, n, done>>
 BaseConds == IF NV = 1 THEN Conds
              ELSE << CmpC("eq", At(V(1), "n"), At(V(2), "m")), CmpC("lt", At(V(2), "n"), At(V(1), "m")),
                      CmpC("ne", At(V(1), "ref"), V(2)), CmpC("ge", At(V(1), "n"), At(V(2), "n")) >>
-Init == \E c \in 1..Len(BaseConds) : open = <<[node |-> Node(1, BaseConds[c], Nil, Nil), as |-> "root"]>> /\ n = 1 /\ done = <<>>
+Init == \E c \in 1..Len(BaseConds) : open = <<[node |-> Node(1, BaseConds[c], Nil, <<>>), as |-> "root"]>> /\ n = 1 /\ done = <<>>
 
 Top == open[Len(open)]
 \* `with refinement(c):` / `with alternative(c):` inside the block of the node on top of the stack
 OpenBranch(kind, c) ==
   /\ done = <<>> /\ n < MaxNodes
-  /\ (kind = "ref" => Top.node.ref = Nil /\ Top.node.alt = Nil)      \* refinement first, then alternatives
-  /\ (kind = "alt" => Top.node.alt = Nil)
-  /\ open' = Append(open, [node |-> Node(n + 1, Conds[c], Nil, Nil), as |-> kind])
+  /\ (kind = "ref" => Top.node.ref = Nil /\ Top.node.alts = <<>>)     \* refinement first, then alternatives
+  /\ open' = Append(open, [node |-> Node(n + 1, Conds[c], Nil, <<>>), as |-> kind])
   /\ n' = n + 1 /\ UNCHANGED done
 \* leaving the innermost block attaches the finished node to its parent
 CloseBranch ==
@@ -42,7 +42,7 @@ CloseBranch ==
   /\ LET child == Top
          parent == open[Len(open) - 1]
          newParent == IF child.as = "ref" THEN [parent EXCEPT !.node.ref = child.node]
-                      ELSE [parent EXCEPT !.node.alt = child.node]
+                      ELSE [parent EXCEPT !.node.alts = Append(@, child.node)]
      IN open' = Append(SubSeq(open, 1, Len(open) - 2), newParent)
   /\ UNCHANGED <<n, done>>
 Finish == /\ done = <<>> /\ Len(open) = 1 /\ done' = <<open[1].node>> /\ UNCHANGED <<open, n>>
@@ -52,7 +52,7 @@ Next == \/ \E kind \in {"ref", "alt"}, c \in 1..Len(Conds) : OpenBranch(kind, c)
 Spec == Init /\ [][Next]_vars
 
 RECURSIVE Size(_)
-Size(t) == IF t.k = "nil" THEN 0 ELSE 1 + Size(t.ref) + Size(t.alt)
+Size(t) == IF t.k = "nil" THEN 0 ELSE 1 + Size(t.ref) + FoldLeft(LAMBDA acc, x : acc + Size(x), 0, t.alts)
 SizeOK == done # <<>> => Size(done[1]) = n /\ n <= MaxNodes
 Export == done # <<>> => PrintT(<<"TREE", ToJson(done[1])>>)
 =============================================================================
